@@ -119,6 +119,40 @@ impl AsRef<[u8]> for InlineBytes {
     }
 }
 
+/// A haystack whose `AsRef<[u8]>` is not pure (legal, safe Rust).
+pub struct HostileBytes {
+    calls: std::cell::Cell<usize>,
+    first: Vec<u8>,
+    second: Vec<u8>,
+    switch_after: usize,
+    alternate: bool,
+}
+impl AsRef<[u8]> for HostileBytes {
+    fn as_ref(&self) -> &[u8] {
+        let n = self.calls.get();
+        self.calls.set(n + 1);
+        let use_first = if self.alternate { n % 2 == 0 } else { n < self.switch_after };
+        if use_first { &self.first } else { &self.second }
+    }
+}
+
+/// A haystack whose `AsRef<str>` is not pure (legal, safe Rust).
+pub struct HostileStr {
+    calls: std::cell::Cell<usize>,
+    first: String,
+    second: String,
+    switch_after: usize,
+    alternate: bool,
+}
+impl AsRef<str> for HostileStr {
+    fn as_ref(&self) -> &str {
+        let n = self.calls.get();
+        self.calls.set(n + 1);
+        let use_first = if self.alternate { n % 2 == 0 } else { n < self.switch_after };
+        if use_first { &self.first } else { &self.second }
+    }
+}
+
 /// A string stored inline, like `arrayvec::ArrayString` / `heapless::String`.
 #[derive(Clone, Copy)]
 pub struct InlineStr {
@@ -216,8 +250,59 @@ where
     }
 }
 
-fn collect<V: Copy>(it: impl Iterator<Item = daachorse::Match<V>>, limit: usize) -> Vec<M<V>> {
-    it.take(limit).map(|m| (m.start(), m.end(), m.value())).collect()
+thread_local! {
+    static STYLE: std::cell::Cell<u32> = std::cell::Cell::new(0);
+}
+
+/// Consumes a search iterator in one of several legal ways (the library may specialise any
+/// `Iterator` method): plain `next()` loop, `take().collect()`, a few `next()` calls followed by a
+/// by-value `for_each` / `fold` of the rest. All must produce the same sequence.
+fn collect<V: Copy>(mut it: impl Iterator<Item = daachorse::Match<V>>, limit: usize) -> Vec<M<V>> {
+    let style = STYLE.with(|s| {
+        let v = s.get();
+        s.set(v.wrapping_add(1));
+        v
+    });
+    let mut out: Vec<M<V>> = Vec::new();
+    match style % 4 {
+        0 => {
+            while out.len() < limit {
+                match it.next() {
+                    Some(m) => out.push((m.start(), m.end(), m.value())),
+                    None => break,
+                }
+            }
+        }
+        1 => out = it.take(limit).map(|m| (m.start(), m.end(), m.value())).collect(),
+        2 => {
+            // k x next(), then the rest through by-value internal iteration (bounded: `limit` is an
+            // upper bound on what a correct iterator yields, the step budget bounds a runaway one)
+            let k = 1 + (style / 4) as usize % 3;
+            for _ in 0..k {
+                match it.next() {
+                    Some(m) => out.push((m.start(), m.end(), m.value())),
+                    None => return out,
+                }
+            }
+            it.for_each(|m| {
+                if out.len() < limit {
+                    out.push((m.start(), m.end(), m.value()));
+                }
+            });
+        }
+        _ => {
+            if let Some(m) = it.next() {
+                out.push((m.start(), m.end(), m.value()));
+                out = it.fold(out, |mut acc, m| {
+                    if acc.len() < limit {
+                        acc.push((m.start(), m.end(), m.value()));
+                    }
+                    acc
+                });
+            }
+        }
+    }
+    out
 }
 
 impl<V: Copy> Pma<V> {
@@ -335,6 +420,38 @@ impl<V: Copy> Pma<V> {
         };
         verif::set_step_budget(None);
         r
+    }
+
+    /// Runs a slice/str entry point with a haystack whose (safe) `AsRef` implementation is not
+    /// pure: it answers with `first` for the first `switch_after` calls and with `second` afterwards
+    /// (or alternates between the two). The results are unspecified; what is observed is that the
+    /// search stays memory safe (the build's sanitizer aborts otherwise). Returns the number of
+    /// matches produced.
+    pub fn search_hostile(&self, m: Method, first: &[u8], second: &[u8], switch_after: usize, alternate: bool, limit: usize, budget: Option<u64>) -> usize {
+        verif::reset_steps();
+        verif::set_step_budget(budget);
+        let n = match self {
+            Pma::B(p) => {
+                let h = HostileBytes { calls: std::cell::Cell::new(0), first: first.to_vec(), second: second.to_vec(), switch_after, alternate };
+                match m {
+                    Method::Overlap => p.find_overlapping_iter(h).take(limit).count(),
+                    Method::Find => p.find_iter(h).take(limit).count(),
+                    Method::NoSuffix => p.find_overlapping_no_suffix_iter(h).take(limit).count(),
+                    _ => p.leftmost_find_iter(h).take(limit).count(),
+                }
+            }
+            Pma::C(p) => {
+                let h = HostileStr { calls: std::cell::Cell::new(0), first: as_str(first).to_string(), second: as_str(second).to_string(), switch_after, alternate };
+                match m {
+                    Method::Overlap => p.find_overlapping_iter(h).take(limit).count(),
+                    Method::Find => p.find_iter(h).take(limit).count(),
+                    Method::NoSuffix => p.find_overlapping_no_suffix_iter(h).take(limit).count(),
+                    _ => p.leftmost_find_iter(h).take(limit).count(),
+                }
+            }
+        };
+        verif::set_step_budget(None);
+        n
     }
 
     /// `search`, with a panic of the library turned into `Err(message)`.
